@@ -185,6 +185,17 @@ CHECKS = {
              "insert_function_call_on_unpickled_object is covered only by the companion; known finding: its exec/eval pair shares no "
              "namespace under the pure-Python unpickler. ConstantOpcode.new is under a trusted contract here (C15 verifies it).",
         ref="§C08"),
+    "C17": dict(
+        text="Proof of the decision table: identify_pytorch_file_format is executed symbolically over the twelve booleans of the file's properties "
+             "and the two sub-check results (all valuations, ~250 paths); for every format the obligation 'reported iff the documented condition "
+             "holds' and the documented order of precedence are discharged per path. Read-only-ness: effects clauses of identification and "
+             "everything in fickling.polyglot it calls (only read-mode opens, no write / delete / temp file). Polyglot hygiene: the working "
+             "copies are created inside a try whose finally removes them (structural obligations).",
+        note="Trusted: what find_file_properties / the sub-checks report about a file (torch, zipfile, tarfile, numpy) and that torch's zip reader "
+             "needs data.pkl at offset-0 zips. Bounded companion replay/poly_diff.py: zips for all 32 marker subsets x placement x trailing "
+             "pickle, real torch files, all ordered pairs as polyglot inputs (inputs unchanged, nothing left behind, output identified as each "
+             "combined format). One defect repaired (temp files on exceptional exits); known finding: TorchScript v1.0 row (code also wants constants.pkl).",
+        ref="§C17"),
 }
 NA_REASON = "check not built yet (work in progress; see DESIGN.md)"
 
